@@ -18,8 +18,9 @@ Only `ref` and `output` references appear in the arguments (the only ones resolv
 only (distractors).
 
 Delimiting rules (the repository's own tokeniser is `([.a-zA-Z0-9_/-]|%(var)s)+:(method)`): the character in front
-of a reference is never in `[.a-zA-Z0-9_/-]`; the character after it is one of ` , " ' ) ; : /` or the end; literal
-words contain no `:` (so never `:method`), no `%`, no `[`.
+of a reference is never in `[.a-zA-Z0-9_/-]`; the character after it is one of ` , " ' ) ; : /`, the end, or literal text glued on
+(`A:refs`, `A:ref_1`: the method keyword ends the reference); literal words contain no `:` (so never `:method`), no `%`,
+no `[`. Contents behind `:output` include CR / CRLF line ends and other control characters (read verbatim).
 """
 from __future__ import annotations
 
@@ -33,12 +34,15 @@ from .workflow import confusable_name, name_ok
 SUBST_METHODS = ("ref", "output")
 DISTRACTOR_METHODS = ("copy", "link", "copyout", "extract")
 
-PRE_SEPS = [" ", " ", " ", "=", "=", ",", "\"", "'", "(", ";", " -x=", " --in=", " -p "]
+PRE_SEPS = [" ", " ", " ", "=", "=", ",", "\"", "'", "(", ";", " -x=", " --in=", " -p ", " run#", " caf\u00e9", "@", "+"]
 POST_SEPS = [" ", " ", ",", "\"", "'", ")", ";"]
+# literal text glued directly behind a reference (a unit, a plural, a suffix): the method keyword ends the reference
+GLUE = ["s", "X", "Kb", "_1", "2", "#", "+x", "\u00e9", "]"]
 FILE_POOL = ["f.txt", "o.txt", "d/e.txt", "out.stdout", "q.r/c-d.dat"]
 WORDS = ["run", "-x", "--flag", "1", "0.5", "v_1", "stage0", "stage1", "ref", "output", "input", "data", "x.y"]
 CONTENT_POOL = ["42", "hello world", "a b  c", "v1\n", "x\n\n", " lead", "multi\nline", "", "0", "-n 3",
-                "café", "/some/path", "tab\there"]
+                "café", "/some/path", "tab\there", "alpha\r\nbeta\r\n", "step 1/2\rstep 2/2\rdone\n", "cr\r",
+                "\x0bvt\x0c", "trail \n"]
 
 
 @st.composite
@@ -187,9 +191,11 @@ def _group(draw, prods, cstage: int, out_locs: List[str], contents: dict, max_re
         tokens.append(["ref", i, sp])
         last = n == len(occ) - 1
         text = ""
-        tail = draw(st.sampled_from(["", "", "", "path", "colon"]))
+        tail = draw(st.sampled_from(["", "", "", "path", "colon", "glue"]))
         if tail == "path" and refs[i]["method"] == "ref":
             text += "/" + draw(st.sampled_from(FILE_POOL + names[:2]))
+        elif tail == "glue":
+            text += draw(st.sampled_from(GLUE))
         if last:
             if draw(st.booleans()):
                 text += draw(st.sampled_from(POST_SEPS)) + draw(st.sampled_from(WORDS + names + [""]))
